@@ -171,6 +171,30 @@ fn strategy(tier: Tier) -> BoxedStrategy<Case> {
         .boxed()
 }
 
+/// Long inputs through the real rayon entry points in pools of every size 1..=16 (work distribution that depends on
+/// the pool size or on megabyte-scale input shows only here).
+fn large_strategy(tier: Tier) -> BoxedStrategy<Case> {
+    let max_mib = tier.pick(24u32, 64u32);
+    let av = levels::available().clone();
+    let threads = prop_oneof![2 => 1u8..=16, 3 => crate::gen::select(vec![3u8, 5, 6, 7, 9, 11, 12, 13])];
+    let how = (threads, any::<bool>()).prop_map(|(threads, mm)| if mm { How::MmapRayon { threads } } else { How::Rayon { threads } });
+    let len = prop_oneof![
+        2 => (1u32..=max_mib, -2i32..=2).prop_map(|(m, d)| ((m << 20) as i64 + d as i64 * 1024 + (d as i64 % 2)) as u32),
+        2 => (1u32 << 20)..=(max_mib << 20),
+    ];
+    (
+        gen::mode4(),
+        prop_oneof![4 => Just(*av.last().unwrap_or(&Level::Portable)), 1 => (0usize..av.len().max(1)).prop_map(move |i| *av.get(i).unwrap_or(&Level::Portable))],
+        prop_oneof![3 => Just(0u32), 2 => 1u32..=4096, 2 => (1u32..=9).prop_map(|k| k * 1024), 1 => 0u32..=40_000],
+        len,
+        gen::content(),
+        how,
+        0u16..=3000,
+    )
+        .prop_map(|(mode, level, prefix_len, len, content, how, suffix_len)| Case { mode, level, prefix_len, len, content, how, suffix_len })
+        .boxed()
+}
+
 // ---------------------------------------------------------------------------
 // C library: the parallel-join seam of the BLAKE3_USE_TBB build, scripted by the harness
 // ---------------------------------------------------------------------------
@@ -280,6 +304,16 @@ pub fn subs() -> Vec<Box<dyn DynSub>> {
         known: None,
         crumb: false,
     })];
+    v.push(Box::new(PropSub::<Case> {
+        name: "rayon-large",
+        rule: "proptest: inputs of 1-24 MiB (quick) / 64 MiB (thorough), at whole MiB +-2 KiB and uniform, after prefixes as above, through update_rayon / update_mmap_rayon inside pools of 1..=16 threads with the sizes that are not powers of two over-weighted; same oracle (serial twin and spec, again after a suffix)",
+        cases: (64, 1_200),
+        strategy: large_strategy,
+        classify,
+        check,
+        known: None,
+        crumb: false,
+    }));
     #[cfg(feature = "cshim")]
     v.push(Box::new(PropSub::<c_side::CCase> {
         name: "c-join-seam",
